@@ -10,7 +10,7 @@ from tartiflette import TartifletteError
 
 META = {
     "bounds": "schema X in all 8 nullability layouts of (Leaf.n, Mid.leaf, [Leaf] item); 5 documents; every single fault point of the request "
-              "(list indices included) x 9 failure kinds; pairs of faults in the thorough tier; leaf payload: unbounded int",
+              "(list indices included) x 10 failure kinds; pairs of faults in the thorough tier; leaf payload: unbounded int",
     "outside": "more than two simultaneous faults; documents outside the catalogue; message wording of engine-made errors",
     "explanation": "Oracle: reference null-propagation (vf/ref/execute.py) with the error-set latitude of DESIGN §4 C02 (errors ⊆ E_max, ≥1 cause per nulled position).",
 }
@@ -43,11 +43,16 @@ def apply_fault(kind, payload):
             return payload                   # an int: out of 32-bit range or fine, solver's choice
         if kind == 8:
             raise SHARED[0]                  # the same exception instance at every fault point
+        if kind == 9:
+            # a list whose second item is an error object (e.g. the result of gather(..., return_exceptions=True))
+            first = world.read(parent, fname)
+            first = first[0] if isinstance(first, list) and first else None
+            return [first, MyErr("item msg", extensions={"code": 5})]
         raise AssertionError(kind)
     return f
 
 
-NK = 9
+NK = 10
 DOCS = {
     "Q1": "{ n mid { n leaf { n } leaves { n } } mids { leaf { n } } }",
     "Q2": "{ node { id ... on A { n peer { id } } } us { ... on A { n } ... on B { flag } } nn nodes { id } }",
@@ -75,16 +80,22 @@ def _points(doc):
     world.reset()
     r = Ref(MODELS[0], ASTS[doc], world.ref_resolve, world.typeof_default)
     r.execute(None, {}, DATA)
-    return [c[0] for c in r.calls], [MODELS[0]["types"][named(MODELS[0]["types"][c[1]]["fields"][c[2]]["type"])]["kind"] for c in r.calls]
+    from vf.ref.model import tstr
+    return ([c[0] for c in r.calls], [MODELS[0]["types"][named(MODELS[0]["types"][c[1]]["fields"][c[2]]["type"])]["kind"] for c in r.calls],
+            ["[" in tstr(MODELS[0]["types"][c[1]]["fields"][c[2]]["type"]) for c in r.calls])
 
 
 _P = {d: _points(d) for d in DOCS}
 POINTS = {d: _P[d][0] for d in DOCS}
 POINT_KIND = {d: _P[d][1] for d in DOCS}      # kind of the named type at each fault point
+POINT_LIST = {d: _P[d][2] for d in DOCS}      # is the field list-typed
 
 
 def meaningless(doc, k, kind):
-    """a dict returned for a scalar leaf: String result coercion of arbitrary objects is implementation latitude (C03's subject)"""
+    """a dict returned for a scalar leaf: String result coercion of arbitrary objects is implementation latitude (C03's subject);
+    the list-with-an-error-item kind only makes sense where a list is declared"""
+    if kind == 9:
+        return not POINT_LIST[doc][k]
     return kind in (5, 6) and POINT_KIND[doc][k] == "SCALAR"
 
 
@@ -131,7 +142,7 @@ QUICK = [i for i, s in enumerate(SHARDS) if s["doc"] == "Q1" or s["bits"] in (0,
 @obligation(tier="quick", timeout=360, thorough_timeout=900, shards=SHARDS, quick_shards=QUICK,
             samples=[{"k": 3, "kind": 1, "payload": 0}, {"k": 5, "kind": 4, "payload": 2**31}],
             symbolic=["payload: int (unbounded) returned at the fault point"],
-            selectors=["k: fault point over every field instance of the request", "kind: 0..8", "shard: document, nullability layout, sequential/concurrent coercion"],
+            selectors=["k: fault point over every field instance of the request", "kind: 0..9", "shard: document, nullability layout, sequential/concurrent coercion"],
             bounds="single fault; 5 documents x 8 layouts (+3 sequential-coercion engines)",
             note="every single fault point x failure kind: data == reference propagation, error set within latitude, paths, locations in the field's text, user message/extensions kept")
 def c02_single(k: int, kind: int, payload: int) -> bool:
@@ -159,6 +170,8 @@ def c02_single(k: int, kind: int, payload: int) -> bool:
     if kind == 1 and not user_error_kept(resp, pts[k], "user msg", 7):
         return verdict(False)
     if kind == 8 and not user_error_kept(resp, pts[k], "shared msg", 9):
+        return verdict(False)
+    if kind == 9 and not user_error_kept(resp, pts[k] + (1,), "item msg", 5):
         return verdict(False)
     return verdict(True)
 
